@@ -14,6 +14,7 @@
 -/
 import YalafiVerif.Proofs.Utils
 import YalafiVerif.Proofs.Lines
+import YalafiVerif.Properties.PlainLangStmt
 namespace Yalafi
 
 theorem C12_sections_conserve (toks : List Tok) (main : Str) :
